@@ -1,5 +1,7 @@
 //! Execution of one case line against the real crate.  `None` = the implementation panicked.
+use crate::app;
 use crate::obs;
+use crate::tobs;
 use crate::util::*;
 
 pub fn unhex(tok: &str) -> Vec<u8> {
@@ -19,6 +21,13 @@ pub fn exec_case(line: &str) -> Option<Vec<u64>> {
         "CRS" => { let b = unhex(toks[1]); guarded(move || obs::run_crs(&b)) }
         "PES" => { let b = unhex(toks[1]); guarded(move || obs::run_pes(&b)) }
         "PPC" => { let b = unhex(toks[1]); guarded(move || obs::run_ppc(&b)) }
+        "CRC" => { let b = unhex(toks[1]); guarded(move || vec![mpeg2ts_reader::mpegts_crc::sum32(&b) as u64]) }
+        "DSC" => { let b = unhex(toks[1]); guarded(move || tobs::run_dsc(&b)) }
+        "PAT" => { let b = unhex(toks[1]); guarded(move || tobs::run_pat(&b)) }
+        "PMT" => { let b = unhex(toks[1]); guarded(move || tobs::run_pmt(&b)) }
+        "SEC" => { let f: u64 = toks[1].parse().unwrap(); let p: Vec<Vec<u8>> = toks[2..].iter().map(|t| unhex(t)).collect(); guarded(move || app::run_sec(f, &p)) }
+        "DMX" => { let f: u64 = toks[1].parse().unwrap(); let s = app::parse_scripts(toks[2]); let p: Vec<Vec<u8>> = toks[3..].iter().map(|t| unhex(t)).collect();
+                   guarded(move || app::run_dmx(f, s, &p)) }
         "AF" => { let b = unhex(toks[1]); guarded(move || obs::run_af(&b)) }
         k => panic!("unknown case kind {}", k),
     }
